@@ -77,13 +77,14 @@ func isChar(d os.FileInfo) bool {
 }
 
 func (fid *ufsFid) stat() *Error {
-	var err error
-
-	fid.st, err = os.Lstat(fid.path)
+	// the old description stays if the file cannot be looked at any more:
+	// another request on the same fid may be in the middle of using it
+	st, err := os.Lstat(fid.path)
 	if err != nil {
 		return toError(err)
 	}
 
+	fid.st = st
 	return nil
 }
 
